@@ -16,13 +16,15 @@ BI(x) == [s |-> x.s, d |-> x.d]          \* a logged BigInt
 JudgeMove(e, j, tag) ==                   \* lt / t3 : (position, accumulator) after T ticks
   IF ~(AccOK(e.c) /\ (IF tag = "t3" THEN DomainOK32(e.r, e.a, j, BI(e.T)) ELSE DomainOK(e.r, e.a, j, BI(e.T)))) THEN "skip"
   ELSE LET pa == PosAccAtL(e.r, e.a, j, e.c, BI(e.T)) IN
-       IF ~e.isint THEN tag \o ".not_integer"
+       IF e.raised THEN tag \o ".raises"
+       ELSE IF ~e.isint THEN tag \o ".not_integer"
        ELSE IF BI(e.pos) # pa.q THEN tag \o ".position"
        ELSE IF BI(e.acc) # FromInt(pa.r) THEN tag \o ".accumulator"
        ELSE "ok"
 
 JudgeRate(e) ==
   IF ~DomainOK32(e.r, e.a, e.j, BI(e.T)) THEN "skip"
+  ELSE IF e.raised THEN "rate.raises"
   ELSE IF ~e.isint THEN "rate.not_integer"
   ELSE IF BI(e.val) # RateAtL(e.r, e.a, e.j, BI(e.T)) THEN "rate.end_of_move" ELSE "ok"
 
@@ -31,28 +33,37 @@ JudgePeak(e) ==
   ELSE LET K == BI(e.T)
            m == BI(e.val)
            pk == PeakL(e.r, e.a, e.j, K) IN
-       IF ~e.isint THEN "peak.not_integer"
-       ELSE IF Cmp(m, pk) > 0 THEN "peak.exceeds_true_peak"
-       ELSE IF Cmp(m, Abs(RateAtL(e.r, e.a, e.j, One))) < 0 THEN "peak.below_first_tick"
-       ELSE IF Cmp(m, Abs(RateAtL(e.r, e.a, e.j, K))) < 0 THEN "peak.below_last_tick"
-       ELSE IF Cmp(Sub(pk, m), FromInt(AbsN(e.j))) > 0 THEN "peak.short_by_more_than_jerk"
+       IF DomainOK(e.r, e.a, e.j, K) THEN           \* a valid move: the full bracket
+         (IF e.raised THEN "peak.raises"
+          ELSE IF ~e.isint THEN "peak.not_integer"
+          ELSE IF Cmp(m, pk) > 0 THEN "peak.exceeds_true_peak"
+          ELSE IF Cmp(m, Abs(RateAtL(e.r, e.a, e.j, One))) < 0 THEN "peak.below_first_tick"
+          ELSE IF Cmp(m, Abs(RateAtL(e.r, e.a, e.j, K))) < 0 THEN "peak.below_last_tick"
+          ELSE IF Cmp(Sub(pk, m), FromInt(AbsN(e.j))) > 0 THEN "peak.short_by_more_than_jerk"
+          ELSE "ok")
+       \* a move that leaves the rate limit is not "valid": the statement then promises only its last sentence - what the helper reports
+       \* as within the limit exceeds it by at most one jerk increment (refusing to answer, or any answer above the limit, is fine)
+       ELSE IF e.raised \/ ~e.isint THEN "ok"
+       ELSE IF Cmp(Abs(m), BMm1) <= 0 /\ Cmp(Sub(pk, BMm1), FromInt(AbsN(e.j))) > 0 THEN "peak.reported_within_limit_but_exceeds_it"
        ELSE "ok"
 
 JudgeLM(e) ==
   IF ~AccOK(e.c) THEN "skip"
   ELSE IF e.steps = 0 \/ (e.r = 0 /\ e.a = 0) \/ (e.steps < 0 /\ e.r < 0) THEN
-       (IF e.isint /\ BI(e.T) = BZero /\ BI(e.pos) = BZero /\ BI(e.acc) = BZero THEN "ok" ELSE "lm.cannot_move_reports_zero")
+       (IF e.raised THEN "lm.raises" ELSE IF e.isint /\ BI(e.T) = BZero /\ BI(e.pos) = BZero /\ BI(e.acc) = BZero THEN "ok" ELSE "lm.cannot_move_reports_zero")
   ELSE LET s == AbsN(e.steps)
            rr == IF e.steps < 0 THEN 0 - e.r ELSE e.r
            aa == IF e.steps < 0 THEN 0 - e.a ELSE e.a IN
        IF ~e.hasw THEN "skip"                      \* budget never completed inside the valid domain
        ELSE LET W == BI(e.Tw) IN
-            IF ~(R0Fits(rr, aa) /\ DomainOK(rr, aa, 0, W) /\ IsFirstTick(rr, aa, e.c, s, W)) THEN "badwitness"
+            IF ~(DomainOK(rr, aa, 0, W) /\ IsFirstTick(rr, aa, e.c, s, W)) THEN "badwitness"
             ELSE LET pa == PosAccAtL(rr, aa, 0, e.c, W) IN
-                 IF ~e.isint THEN "lm.not_integer"
+                 IF e.raised THEN "lm.raises"
+                 ELSE IF ~e.isint THEN "lm.not_integer"
                  ELSE IF BI(e.T) # W THEN "lm.duration_is_first_tick"
                  ELSE IF BI(e.pos) # pa.q THEN "lm.position"
                  ELSE IF BI(e.acc) # FromInt(pa.r) THEN "lm.accumulator"
+                 ELSE IF e.ltbad THEN "lm.feeds_timed_move"
                  ELSE IF e.haslt /\ (BI(e.ltpos) # pa.q \/ BI(e.ltacc) # FromInt(pa.r)) THEN "lm.feeds_timed_move"
                  ELSE "ok"
 
